@@ -7,6 +7,7 @@
 //	         Go-side oracle (never_early, at_most_once, cancel_honoured, all_delivered) and emitted as CHist
 //	         cases on which Coq re-evaluates the same predicates of the model.
 //	hook   : the poller is held between pop and select, Cancel completes, the poller continues (D18c).
+//	windows: see windows.go (every yield point x client operations completed while the worker is held).
 package main
 
 import (
@@ -730,6 +731,7 @@ func main() {
 	gridMs := fs.Int("grid", 50, "")
 	winMs := fs.Int("win", 30, "")
 	hookTrials := fs.Int("hook", 600, "")
+	winReps := fs.Int("windows", 6, "")
 	par := fs.Int("par", 32, "")
 	seed := fs.Uint64("seed", 1, "")
 	out := fs.String("out", "cases.v", "")
@@ -813,6 +815,10 @@ func main() {
 		if d > 0 || hung > 0 {
 			st.Fail(map[string]any{"sig": "", "kind": "hook", "violated": "cancel_honoured", "what": fmt.Sprintf("Add(due); poller pops and is held before the select; Cancel() returns; poller continues: delivered in %d, hung in %d of %d trials", d, hung, *hookTrials)})
 		}
+	}
+	// windows: worker held at every yield point x client operations completed meanwhile
+	if *winReps > 0 {
+		runWindows(cf, st, *winReps, *par)
 	}
 	if err := cf.Write(*out); err != nil {
 		vx.Die("%v", err)
